@@ -135,6 +135,9 @@ impl Default for WorkloadCfg {
 pub struct Workload {
     pub cfg: WorkloadCfg,
     pub sides: BTreeMap<u32, SideState>,
+    /// connection keys (client incarnations) whose traffic is rewritten by a hostile peer: no
+    /// data / API expectations hold there
+    pub unchecked: std::collections::BTreeSet<u32>,
 }
 
 fn sid_u64(id: StreamId) -> u64 {
@@ -148,7 +151,7 @@ fn sid_from(v: u64) -> StreamId {
 
 impl Workload {
     pub fn new(cfg: WorkloadCfg) -> Self {
-        Self { cfg, sides: BTreeMap::new() }
+        Self { cfg, sides: BTreeMap::new(), unchecked: Default::default() }
     }
 
     pub fn add_side(&mut self, inc: u32, is_client: bool, plans: Vec<StreamPlan>) {
@@ -210,16 +213,16 @@ impl Workload {
                     Some(st) => {
                         st.finished_events += 1;
                         if st.finished_events > 1 {
-                            w.violate("finished-twice", format!("inc{} stream {} Finished emitted {} times", inc, sid, st.finished_events));
+                            viol(&self.unchecked, w, inc, "finished-twice", format!("inc{} stream {} Finished emitted {} times", inc, sid, st.finished_events));
                         }
                         if st.finish_called_with.is_none() {
-                            w.violate("finished-without-finish", format!("inc{} stream {} Finished but finish() was never called", inc, sid));
+                            viol(&self.unchecked, w, inc, "finished-without-finish", format!("inc{} stream {} Finished but finish() was never called", inc, sid));
                         }
                         if st.state == SState::FinishCalled {
                             st.state = SState::Finished;
                         }
                     }
-                    None => w.violate("finished-unknown-stream", format!("inc{} Finished for stream {} we never opened", inc, sid)),
+                    None => viol(&self.unchecked, w, inc, "finished-unknown-stream", format!("inc{} Finished for stream {} we never opened", inc, sid)),
                 }
             }
             Event::Stream(StreamEvent::Stopped { id, error_code }) => {
@@ -227,7 +230,7 @@ impl Workload {
                 let code = error_code.into_inner();
                 let known = self.sides[&inc].sends.contains_key(&sid);
                 if !known {
-                    w.violate("stopped-unknown-stream", format!("inc{} Stopped for stream {} we never opened", inc, sid));
+                    viol(&self.unchecked, w, inc, "stopped-unknown-stream", format!("inc{} Stopped for stream {} we never opened", inc, sid));
                     return;
                 }
                 {
@@ -235,7 +238,7 @@ impl Workload {
                     st.stopped_events += 1;
                     st.stopped_event = Some(code);
                     if st.stopped_events > 1 {
-                        w.violate("stopped-twice", format!("inc{} stream {} Stopped emitted {} times", inc, sid, st.stopped_events));
+                        viol(&self.unchecked, w, inc, "stopped-twice", format!("inc{} stream {} Stopped emitted {} times", inc, sid, st.stopped_events));
                     }
                 }
                 self.check_stop_code(w, inc, sid, code);
@@ -254,7 +257,7 @@ impl Workload {
         if let Some(ps) = self.sides.get(&peer) {
             match ps.recvs.get(&sid).and_then(|r| r.terminal.clone()) {
                 Some(RTerm::Stopped(c)) if c == code => {}
-                other => w.violate("stop-code-mismatch", format!("inc{} stream {} reported Stopped({}) but the peer application's state is {:?}", inc, sid, code, other)),
+                other => viol(&self.unchecked, w, inc, "stop-code-mismatch", format!("inc{} stream {} reported Stopped({}) but the peer application's state is {:?}", inc, sid, code, other)),
             }
         }
     }
@@ -268,7 +271,7 @@ impl Workload {
                 st.reset_code = Some(code);
                 st.state = SState::StoppedReset(code);
             } else if self.cfg.strict_api {
-                w.violate("reset-after-stop-refused", format!("inc{} stream {} reset() after Stopped returned ClosedStream in state {:?}", inc, sid, st.state));
+                viol(&self.unchecked, w, inc, "reset-after-stop-refused", format!("inc{} stream {} reset() after Stopped returned ClosedStream in state {:?}", inc, sid, st.state));
             }
         }
     }
@@ -303,7 +306,7 @@ impl Workload {
                     let sid = sid_u64(id);
                     s.next_plan += 1;
                     if s.sends.contains_key(&sid) {
-                        w.violate("open-returned-duplicate-id", format!("inc{} open returned stream {} twice", inc, sid));
+                        viol(&self.unchecked, w, inc, "open-returned-duplicate-id", format!("inc{} open returned stream {} twice", inc, sid));
                         return;
                     }
                     s.sends.insert(
@@ -350,18 +353,24 @@ impl Workload {
     }
 
     fn accept_all(&mut self, w: &mut World, inc: u32, dir: Dir) {
+        let mut n = 0u64;
         loop {
+            n += 1;
+            if n > 200_000 {
+                w.violate("accept-never-ends", format!("inc{} Streams::accept({:?}) returned more than 200000 streams in a row", inc, dir));
+                return;
+            }
             let r = w.conn_mut(inc).streams().accept(dir);
             let Some(id) = r else { break };
             let sid = sid_u64(id);
             w.trace_item(|| format!("accept inc={} -> {}", inc, sid), crate::chooser::mix(&[0xACC, inc as u64, sid]));
             let is_client = self.sides[&inc].is_client;
             if id.initiator() == (if is_client { Side::Client } else { Side::Server }) || id.dir() != dir {
-                w.violate("accept-returned-wrong-stream", format!("inc{} accept({:?}) returned {}", inc, dir, sid));
+                viol(&self.unchecked, w, inc, "accept-returned-wrong-stream", format!("inc{} accept({:?}) returned {}", inc, dir, sid));
                 return;
             }
             if self.sides[&inc].recvs.contains_key(&sid) {
-                w.violate("accept-returned-duplicate", format!("inc{} accept returned stream {} twice", inc, sid));
+                viol(&self.unchecked, w, inc, "accept-returned-duplicate", format!("inc{} accept returned stream {} twice", inc, sid));
                 return;
             }
             let rp = self.draw_read_plan(w);
@@ -429,7 +438,7 @@ impl Workload {
                             }
                             Err(FinishError::ClosedStream) => {
                                 if self.cfg.strict_api {
-                                    w.violate("finish-closed-stream", format!("inc{} stream {} finish() on an open, unfinished stream returned ClosedStream", inc, sid));
+                                    viol(&self.unchecked, w, inc, "finish-closed-stream", format!("inc{} stream {} finish() on an open, unfinished stream returned ClosedStream", inc, sid));
                                 }
                                 st.state = SState::Abandoned;
                             }
@@ -444,7 +453,7 @@ impl Workload {
                             st.state = SState::ResetCalled(code);
                         } else {
                             if self.cfg.strict_api {
-                                w.violate("reset-closed-stream", format!("inc{} stream {} reset() on an open stream returned ClosedStream", inc, sid));
+                                viol(&self.unchecked, w, inc, "reset-closed-stream", format!("inc{} stream {} reset() on an open stream returned ClosedStream", inc, sid));
                             }
                             st.state = SState::Abandoned;
                         }
@@ -476,7 +485,7 @@ impl Workload {
             match r {
                 Ok(k) => {
                     if k == 0 || k > n {
-                        w.violate("write-bad-count", format!("inc{} stream {} write of {} bytes returned Ok({})", inc, sid, n, k));
+                        viol(&self.unchecked, w, inc, "write-bad-count", format!("inc{} stream {} write of {} bytes returned Ok({})", inc, sid, n, k));
                         return;
                     }
                     st.written += k as u64;
@@ -495,7 +504,7 @@ impl Workload {
                 }
                 Err(WriteError::ClosedStream) => {
                     if self.cfg.strict_api {
-                        w.violate("write-closed-stream", format!("inc{} stream {} write on an open stream returned ClosedStream", inc, sid));
+                        viol(&self.unchecked, w, inc, "write-closed-stream", format!("inc{} stream {} write on an open stream returned ClosedStream", inc, sid));
                     }
                     st.state = SState::Abandoned;
                     return;
@@ -567,7 +576,7 @@ impl Workload {
         if let Some(e) = open_err {
             w.trace_item(|| format!("read inc={} s={} -> {:?}", inc, sid, e), crate::chooser::mix(&[0x4EAD, inc as u64, sid, 1]));
             if self.cfg.strict_api {
-                w.violate("read-refused-on-open-stream", format!("inc{} stream {} read({}) returned {:?} before any terminal outcome", inc, sid, if ordered { "ordered" } else { "unordered" }, e));
+                viol(&self.unchecked, w, inc, "read-refused-on-open-stream", format!("inc{} stream {} read({}) returned {:?} before any terminal outcome", inc, sid, if ordered { "ordered" } else { "unordered" }, e));
             }
             return;
         }
@@ -575,25 +584,25 @@ impl Workload {
         let peer = self.peer(w, inc);
         let key = stream_key(WORLD_KEY, self.conn_key(w, inc), !is_client, sid);
         let ledger = if peer != NO_INC { self.sides.get(&peer).and_then(|p| p.sends.get(&sid)).cloned() } else { None };
-        let check = self.cfg.check_data && peer != NO_INC && self.sides.contains_key(&peer);
+        let check = self.cfg.check_data && peer != NO_INC && self.sides.contains_key(&peer) && !self.unchecked.contains(&self.conn_key(w, inc));
         for (off, bytes) in &got {
             let len = bytes.len() as u64;
             w.trace_item(|| format!("read inc={} s={} off={} len={}", inc, sid, off, len), crate::chooser::mix(&[0x4EAD, inc as u64, sid, *off, len]));
             let rs = self.sides.get_mut(&inc).unwrap().recvs.get_mut(&sid).unwrap();
             if len == 0 {
-                w.violate("empty-chunk", format!("inc{} stream {} read returned an empty chunk at {}", inc, sid, off));
+                viol(&self.unchecked, w, inc, "empty-chunk", format!("inc{} stream {} read returned an empty chunk at {}", inc, sid, off));
                 return;
             }
             if len as usize > maxlen {
-                w.violate("chunk-exceeds-max-length", format!("inc{} stream {} chunk of {} bytes with max_length {}", inc, sid, len, maxlen));
+                viol(&self.unchecked, w, inc, "chunk-exceeds-max-length", format!("inc{} stream {} chunk of {} bytes with max_length {}", inc, sid, len, maxlen));
                 return;
             }
             if ordered && *off != rs.pos {
-                w.violate("ordered-read-gap", format!("inc{} stream {} ordered read returned offset {} but {} bytes were read before", inc, sid, off, rs.pos));
+                viol(&self.unchecked, w, inc, "ordered-read-gap", format!("inc{} stream {} ordered read returned offset {} but {} bytes were read before", inc, sid, off, rs.pos));
                 return;
             }
             if rs.delivered.overlaps(*off, off + len) {
-                w.violate("duplicate-delivery", format!("inc{} stream {} bytes [{}, {}) delivered twice (already delivered: {:?})", inc, sid, off, off + len, rs.delivered.v));
+                viol(&self.unchecked, w, inc, "duplicate-delivery", format!("inc{} stream {} bytes [{}, {}) delivered twice (already delivered: {:?})", inc, sid, off, off + len, rs.delivered.v));
                 return;
             }
             rs.delivered.insert(*off, off + len);
@@ -602,18 +611,18 @@ impl Workload {
             if check {
                 match &ledger {
                     None => {
-                        w.violate("data-on-unopened-stream", format!("inc{} read {} bytes on stream {} that the peer application never opened", inc, len, sid));
+                        viol(&self.unchecked, w, inc, "data-on-unopened-stream", format!("inc{} read {} bytes on stream {} that the peer application never opened", inc, len, sid));
                         return;
                     }
                     Some(l) => {
                         if off + len > l.written {
-                            w.violate("bytes-never-written", format!("inc{} stream {} delivered [{}, {}) but the sender wrote only {} bytes", inc, sid, off, off + len, l.written));
+                            viol(&self.unchecked, w, inc, "bytes-never-written", format!("inc{} stream {} delivered [{}, {}) but the sender wrote only {} bytes", inc, sid, off, off + len, l.written));
                             return;
                         }
                     }
                 }
                 if let Some(i) = pat_check(key, *off, bytes) {
-                    w.violate("data-mismatch", format!("inc{} stream {} byte at offset {} differs from what was written", inc, sid, off + i as u64));
+                    viol(&self.unchecked, w, inc, "data-mismatch", format!("inc{} stream {} byte at offset {} differs from what was written", inc, sid, off + i as u64));
                     return;
                 }
             }
@@ -627,14 +636,14 @@ impl Workload {
                     if check {
                         match &ledger {
                             Some(l) => match l.finish_called_with {
-                                None => w.violate("end-without-finish", format!("inc{} stream {} reported end of stream but the sender never called finish()", inc, sid)),
+                                None => viol(&self.unchecked, w, inc, "end-without-finish", format!("inc{} stream {} reported end of stream but the sender never called finish()", inc, sid)),
                                 Some(fin) => {
                                     if !rs.delivered.is_prefix(fin) {
-                                        w.violate("end-before-all-data", format!("inc{} stream {} reported end of stream after delivering {:?} but {} bytes were written before finish()", inc, sid, rs.delivered.v, fin));
+                                        viol(&self.unchecked, w, inc, "end-before-all-data", format!("inc{} stream {} reported end of stream after delivering {:?} but {} bytes were written before finish()", inc, sid, rs.delivered.v, fin));
                                     }
                                 }
                             },
-                            None => w.violate("end-on-unopened-stream", format!("inc{} stream {} end of stream on a stream the peer never opened", inc, sid)),
+                            None => viol(&self.unchecked, w, inc, "end-on-unopened-stream", format!("inc{} stream {} end of stream on a stream the peer never opened", inc, sid)),
                         }
                     }
                 }
@@ -644,8 +653,8 @@ impl Workload {
                     if check {
                         match &ledger {
                             Some(l) if l.reset_code == Some(code) => {}
-                            Some(l) => w.violate("reset-code-mismatch", format!("inc{} stream {} reported Reset({}) but the sender's reset code is {:?}", inc, sid, code, l.reset_code)),
-                            None => w.violate("reset-on-unopened-stream", format!("inc{} stream {} reset on a stream the peer never opened", inc, sid)),
+                            Some(l) => viol(&self.unchecked, w, inc, "reset-code-mismatch", format!("inc{} stream {} reported Reset({}) but the sender's reset code is {:?}", inc, sid, code, l.reset_code)),
+                            None => viol(&self.unchecked, w, inc, "reset-on-unopened-stream", format!("inc{} stream {} reset on a stream the peer never opened", inc, sid)),
                         }
                     }
                 }
@@ -661,7 +670,7 @@ impl Workload {
                 rs.terminal = Some(RTerm::Stopped(code));
                 w.probes.hit("app_stop");
             } else if self.cfg.strict_api {
-                w.violate("stop-refused-on-open-stream", format!("inc{} stream {} stop() returned ClosedStream before any terminal outcome", inc, sid));
+                viol(&self.unchecked, w, inc, "stop-refused-on-open-stream", format!("inc{} stream {} stop() returned ClosedStream before any terminal outcome", inc, sid));
             }
         }
     }
@@ -674,6 +683,11 @@ impl Workload {
     pub fn incomplete_reason(&self, w: &World) -> Option<String> {
         for (inc, s) in &self.sides {
             if s.lost.is_some() || s.closed_locally {
+                continue;
+            }
+            // connections attacked by a hostile peer are not expected to complete anything
+            let key = if s.is_client { *inc } else { w.conns[*inc as usize].peer };
+            if self.unchecked.contains(&key) {
                 continue;
             }
             let peer = w.conns[*inc as usize].peer;
@@ -741,6 +755,19 @@ impl Workload {
 
 /// `budget`: total bytes this side may plan (feasibility under tiny windows); `dirs`: which
 /// directions the peer allows at all (bidi, uni)
+const ALWAYS: &[&str] = &["ordered-read-gap", "duplicate-delivery", "empty-chunk", "chunk-exceeds-max-length", "write-bad-count", "open-returned-duplicate-id", "accept-returned-wrong-stream", "accept-returned-duplicate", "finished-twice", "stopped-twice", "finished-without-finish"];
+
+/// report a workload-level violation unless the connection is being attacked by a hostile peer
+/// (then only the guarantees that hold against any peer are kept)
+fn viol(unchecked: &std::collections::BTreeSet<u32>, w: &mut World, inc: u32, kind: &str, detail: String) {
+    let c = &w.conns[inc as usize];
+    let key = if c.side == Side::Client { inc } else { c.peer };
+    if unchecked.contains(&key) && !ALWAYS.contains(&kind) {
+        return;
+    }
+    w.violate(kind, detail);
+}
+
 pub fn draw_plans(w: &mut World, n_max: u32, size_max: u64, reset: u32, leave: u32, budget: u64, dirs: (bool, bool)) -> Vec<StreamPlan> {
     if !dirs.0 && !dirs.1 {
         return Vec::new();
